@@ -59,7 +59,7 @@ ASSUMPTIONS = [
     "divergence (Rayleigh range) is NOT judged because documentation and code use different conventions",
 ]
 QUICK = dict(cases=800, workers=2, timecap=45)
-THOROUGH = dict(cases=80000, workers=16, timecap=600)
+THOROUGH = dict(cases=40000, workers=16, timecap=600)
 REQUIRED = {"quad_xsec": 60, "quad_volume": 4, "quad_uniform": 8, "tiling_lists": 40, "bins": 2000, "sum": 40,
             "sum_unity": 20, "density": 300, "hist_steps": 300, "hist_energy_density": 1000, "hist_geometry": 100,
             "hist_psd": 1000, "reported": 1500, "width": 60}
